@@ -257,6 +257,57 @@ def main():
     extra = run.merge_extra(shards)
     rej = chk.validate('Trace_Dispatch', shards, own_clauses={'EV1', 'EV2', 'SUP', 'IFF', 'UNI1', 'UNI2', 'UNI3', 'IB1', 'IB2', 'GC', 'CCM'})
     chk.report(rej)
+    # ---- the same relation at FIRST USE under threads: the wrapper's answer in each of two threads, replayed in fresh
+    # interpreters under every line-level schedule with a single preemption inside the country lookup and in the import
+    # window (machinery of C13: Gen_LineSched.tla, harness/c13_runner.py); the constituents' answers are the sequential ones
+    from props import c13
+    from concurrent.futures import ThreadPoolExecutor
+    sl = ac.slim
+    from stdnum import iban as _iban
+    from stdnum.util import get_cc_module as _gcm
+    rl = tlc.run('Gen_LineSched', workdir=chk.work, workers=1)
+    ls = []
+    for ln in rl.prints:
+        v = tlc.parse_value(ln)
+        if v and v[0] == 'LSCHED' and v[1] not in ls and sum(1 for a, b in zip(v[1], v[1][1:]) if a != b) <= 2:
+            ls.append(v[1])
+    if len(ls) < 10:
+        raise run.MachineryError('line schedule generator produced %d single-preemption schedules' % len(ls))
+    chk.cov['states'] += rl.distinct
+    chk.cov['transitions'] += rl.generated
+    fjobs = []
+    for x in ('ES2121000418450200051331', 'ES9121000418450200051332', 'NO9386011117947', 'BE31435411161155'):
+        call = {'mod': 'iban', 'fn': 'validate', 'args': [x]}
+        for sl_ in (ls if not quick else ls[::2]):
+            fjobs.append({'kind': 'threads', 'n': 2, 'calls': [call], 'schedule': None, 'lines': sl_})
+        fjobs.append({'kind': 'gate', 'calls': [call], 'gate': 'stdnum.%s.iban' % x[:2].lower()})
+    with ThreadPoolExecutor(max_workers=16) as ex:
+        fouts = list(ex.map(c13.run_runner, fjobs))
+
+    def as_r(txt):
+        if txt.startswith('EXC '):
+            return {'k': 'exc', 't': '', 'v': []}
+        val = json.loads(txt)
+        return {'k': 'ret', 't': 'str' if isinstance(val, str) else type(val).__name__, 'v': lib.cps(val) if isinstance(val, str) else []}
+    fev, fidx = [], []
+    for ji, (job, o) in enumerate(zip(fjobs, fouts), 1):
+        for r in o['results']:
+            x = r['args'][0]
+            ge = lib.call(_iban.validate, x, check_country=False)
+            nat = _gcm(x[:2], 'iban')
+            na = lib.call(nat.validate, x) if nat else {'k': 'none', 't': '', 'v': [], 'b': False, 'mro': []}
+            fev.append({'kind': 'iban', 'wr': as_r(r['r']), 'generic': sl(ge), 'hasnational': nat is not None, 'national': sl(na)})
+            fidx.append({'m': 'iban', 'w': x, 'how': 'first use under threads: %s job %d thread %s step %d: wrapper %s' % (job['kind'], ji, r.get('th'), r['step'], r['r'][:40]),
+                         'site': ''})
+    ep, ip = os.path.join(chk.work, 'firstuse.ndjson'), os.path.join(chk.work, 'firstuse.index')
+    with open(ep, 'w') as fh, open(ip, 'w') as ih:
+        for t, (e, m) in enumerate(zip(fev, fidx), 1):
+            fh.write(json.dumps(dict(e, tid=t)) + '\n')
+            ih.write(json.dumps([t, m]) + '\n')
+    rej = chk.validate('Trace_Dispatch', [{'events': ep, 'index': ip, 'n_events': len(fev), 'n_traces': len(fev)}],
+                       own_clauses={'IB1', 'IB2'}, label='IBAN relation at first use under 2 threads (line schedules, import window)')
+    chk.report(rej)
+    chk.cov['first_use_thread_results'] = len(fev)
     return chk.finish(samples=first_meta(shards), distinct_nontrivial=sum(extra.get(k, 0) for k in ('euvat', 'superset', 'iff', 'union', 'iban', 'guess', 'ccmod')),
                       rule='per relation: valid constituent numbers of every member state / sub-type, 3 random single-character edits, truncation, '
                            'extension, case / spacing / prefix variants, other countries\' numbers under this prefix; ASCII only (the projection is '
